@@ -251,6 +251,26 @@ impl Conn {
         }
     }
 
+    /// the peer is done sending: TLS close_notify + FIN / SSH channel EOF / the child's stdout
+    /// ends - while the connection object stays around (the client may still be writing)
+    pub async fn finish_sending(&mut self) {
+        match self {
+            Conn::Tls(s) => {
+                let _ = s.shutdown().await;
+            }
+            Conn::Ssh { handle, channel, .. } => {
+                let _ = handle.eof(*channel).await;
+            }
+            Conn::Cli(s) => {
+                use std::os::fd::AsRawFd;
+                let _ = s.flush().await;
+                unsafe {
+                    libc::shutdown(s.as_raw_fd(), libc::SHUT_WR);
+                }
+            }
+        }
+    }
+
     pub async fn close(self, manner: CloseManner) {
         match self {
             Conn::Tls(mut s) => match manner {
